@@ -307,6 +307,25 @@ int32 parseClientHelloExtensions(ssl_t *ssl, unsigned char **cp, unsigned short 
         }
     }
 
+# ifdef USE_STATELESS_SESSION_TICKETS
+    /* RFC 7627 5.3: a ticket from a session that did not use the extended
+        master secret must not be resumed by a ClientHello that carries the
+        extension (in either order).  Fall back to a full handshake, as
+        matrixResumeSession does for cached sessions.  After a successful
+        unlock require_extended_master_secret holds the ticket's flag. */
+    if ((ssl->flags & SSL_FLAGS_RESUMED) && ssl->sid != NULL &&
+        ssl->sid->sessionTicketState == SESS_TICKET_STATE_USING_TICKET &&
+        ssl->extFlags.require_extended_master_secret == 0 &&
+        ssl->extFlags.extended_master_secret == 1)
+    {
+        psTraceInfo("Ticket without extended master secret not resumed\n");
+        ssl->flags &= ~SSL_FLAGS_RESUMED;
+        Memset(ssl->sec.masterSecret, 0x0, SSL_HS_MASTER_SIZE);
+        Memset(ssl->sid->masterSecret, 0x0, SSL_HS_MASTER_SIZE);
+        ssl->sid->sessionTicketState = SESS_TICKET_STATE_RECVD_EXT;
+    }
+# endif
+
     /* Handle the extensions that were missing or not what we wanted */
     if (ssl->extFlags.require_extended_master_secret == 1 &&
         ssl->extFlags.extended_master_secret == 0)
